@@ -80,7 +80,7 @@ Record peer := {
   p_staged : list (list pkt)   (* peer.queue.staged: containers, oldest first *)
 }.
 
-Record state := { s_tbl : list entry; s_mtu : Z; s_peers : list peer }.
+Record state := { s_tbl : list entry; s_mtu : Z; s_up : bool; s_peers : list peer }.
 
 Inductive event :=
 | TunBatch (pkts : list pkt)       (* one tun.Read batch *)
@@ -89,7 +89,9 @@ Inductive event :=
 | AnswerHs (p ridx ep : N)         (* the remote answers our outstanding initiation from ep, announcing ridx *)
 | Roam (p ep : N)                  (* authenticated keepalive of the remote arriving from ep *)
 | ShiftHs (p : N)                  (* lastSentHandshake moved more than RekeyTimeout into the past *)
-| Expire (p : N).                  (* keypair creation moved more than RejectAfterTime into the past *)
+| Expire (p : N)                   (* keypair creation moved more than RejectAfterTime into the past *)
+| Down                             (* device.Down(): bind closed, every peer stopped (keypairs, handshake and staged packets flushed) *)
+| Up.                              (* device.Up(): bind open, every peer started (lastSentHandshake moved into the past) *)
 
 Inductive out :=
 | OInit (p ep : N)
@@ -144,8 +146,22 @@ Definition set_sess (p : peer) (ridx ep : N) : peer :=
   {| p_ep := Some ep; p_sess := Some {| ss_ridx := ridx; ss_ctr := 0; ss_expired := false |};
      p_hs_recent := true; p_init_out := false; p_staged := p_staged p |}.
 
-Definition peer_step (tbl : list entry) (mtu : Z) (i : N) (p : peer) (ev : event) : peer * list out :=
+Definition peer_step (tbl : list entry) (mtu : Z) (up : bool) (i : N) (p : peer) (ev : event) : peer * list out :=
   match ev with
+  | Down =>
+      (* Peer.Stop: ZeroAndFlushAll *)
+      ({| p_ep := p_ep p; p_sess := None; p_hs_recent := p_hs_recent p; p_init_out := false; p_staged := [] |}, [])
+  | Up =>
+      (* Peer.Start (only if it was not running): lastSentHandshake = now - (RekeyTimeout + 1 s) *)
+      if up then (p, [])
+      else ({| p_ep := p_ep p; p_sess := p_sess p; p_hs_recent := false; p_init_out := p_init_out p;
+               p_staged := p_staged p |}, [])
+  | _ =>
+  (* device down: peers are not running, the TUN reader drops what it routes
+     (peer.isRunning false) and the closed bind delivers nothing *)
+  if negb up then (p, []) else
+  match ev with
+  | Down | Up => (p, [])
   | TunBatch pkts =>
       let mine := filter (fun x => match route tbl x with Some j => j =? i | None => false end) pkts in
       match mine with
@@ -194,15 +210,16 @@ Definition peer_step (tbl : list entry) (mtu : Z) (i : N) (p : peer) (ev : event
                       end;
             p_hs_recent := p_hs_recent p; p_init_out := p_init_out p; p_staged := p_staged p |}, [])
       else (p, [])
+  end
   end.
 
-Fixpoint step_peers (tbl : list entry) (mtu : Z) (ev : event) (i : N) (ps : list peer)
+Fixpoint step_peers (tbl : list entry) (mtu : Z) (up : bool) (ev : event) (i : N) (ps : list peer)
   : list peer * list out :=
   match ps with
   | [] => ([], [])
   | p :: t =>
-      let '(p', o) := peer_step tbl mtu i p ev in
-      let '(t', os) := step_peers tbl mtu ev (i + 1) t in
+      let '(p', o) := peer_step tbl mtu up i p ev in
+      let '(t', os) := step_peers tbl mtu up ev (i + 1) t in
       (p' :: t', o ++ os)
   end.
 
@@ -215,5 +232,7 @@ Definition mtu_after (mtu : Z) (ev : event) : Z :=
 
 Definition step (st : state) (ev : event) : state * list out :=
   let mtu := mtu_after (s_mtu st) ev in
-  let '(ps, o) := step_peers (s_tbl st) mtu ev 0 (s_peers st) in
-  ({| s_tbl := s_tbl st; s_mtu := mtu; s_peers := ps |}, o).
+  let '(ps, o) := step_peers (s_tbl st) mtu (s_up st) ev 0 (s_peers st) in
+  ({| s_tbl := s_tbl st; s_mtu := mtu;
+      s_up := match ev with Down => false | Up => true | _ => s_up st end;
+      s_peers := ps |}, o).
